@@ -2265,6 +2265,18 @@ def rule_amounts(ctx):
         if isinstance(t, ast.Subscript) and isinstance(getattr(s, 'value', None), ast.Constant) and how in ('assign', 'ann'):
             els = _elements_of(tf.node, t.value, s)
             which = {'indices' if m_ == t_idx else 'emissions' for m_, _k in (els or []) if m_ in (t_idx, t_em)}
+            if not which and isinstance(t.value, ast.Name):
+                # a local that is masked first and stored into the amount map afterwards (`a = ei * fuel; a[:w] = 0;
+                # amounts[k] = a`) is that element of the amount map: bound once, stored once, in the same block
+                nm = t.value.id
+                binds = [x for x in ast.walk(tf.node) if isinstance(x, ast.Name) and x.id == nm and isinstance(x.ctx, ast.Store)]
+                sites = [(key, val, at, st) for key, val, at, st in _amount_sites(tf.node, t_em)
+                         if isinstance(val, ast.Name) and val.id == nm]
+                if len(binds) == 1 and len(sites) == 1 and getattr(sites[0][3], 'lineno', 0) > s.lineno:
+                    blk = next((b for b in ast.walk(tf.node) if isinstance(getattr(b, 'body', None), list)
+                                and s in b.body and sites[0][3] in b.body), None)
+                    if blk is not None:
+                        which = {'emissions'}
             if not which:
                 continue
             if which == {'indices'} and s.value.value == 0.0 and _zeroed_before_product(tf.node, s, els, mult, t_em, t_idx):
